@@ -10,10 +10,12 @@ The same classification of escaping exceptions runs as a probe inside every othe
 exceptions_escaping_api_calls).
 """
 import copy
+import random
 
 from .. import specgen as sg
 from .. import monitors as M
 from .. import world
+from .. import units
 from ..core import Result
 from . import common
 
@@ -34,7 +36,7 @@ REAL = common.REAL_ALL
 STUBS = common.STUBS_ALL
 PROBES = ['one_sample_trace', 'declared_unused_var', 'supplied_undeclared_var', 'permuted_inputs', 'empty_batch', 'unsupported_rejected',
           'rejected_at_parse', 'rejected_at_pastify', 'rejected_at_first_evaluation', 'reset_called', 'combined_class',
-          'object_reused_for_another_log']
+          'object_reused_for_another_log', 'configured_sampling_period']
 
 UNSUPPORTED = {
     # kind, pastify -> constructs that must be rejected
@@ -129,6 +131,15 @@ def gen(rng, tier):
         n = 1 if rng.random() < 0.25 else rng.randint(1, 8)
         sc['n'] = n
         sc['data'] = world.gen_trace(rng, declared, n)
+        if rng.random() < 0.25:
+            # a configured sampling period (also given as a Python float) and default unit; bounds written accordingly
+            nt = units.gen_notation(rng, p_plain=0.0)
+            try:
+                sg.to_text(ast, None, units.bounds_printer(nt, random.Random(sc['spell_seed'])))
+                sc['notation'] = nt
+                shapes.append('configured_sampling_period')
+            except ValueError:
+                pass
         if n == 1:
             shapes.append('one_sample_trace')
     if kind in ('dt_off', 'ct_off') and rng.random() < 0.3:
@@ -157,8 +168,17 @@ def desc_of(sc):
     import random
     dense = sc['kind'].startswith('ct')
     sp = sg.Spelling(random.Random(sc.get('spell_seed', 0)))
-    text = 'out = ' + sg.to_text(sc['ast'], sp, common.dense_bounds if dense else None) + ';'
-    return {'cls': sc['cls'], 'vars': common.var_decls(sc['declared']), 'spec': text}
+    nt = sc.get('notation') if not dense else None
+    d = {'cls': sc['cls'], 'vars': common.var_decls(sc['declared'])}
+    if nt:
+        try:
+            d['spec'] = 'out = ' + sg.to_text(sc['ast'], sp, units.bounds_printer(nt, random.Random(sc.get('spell_seed', 0)))) + ';'
+            d.update(units.spec_config(nt))
+            return d
+        except ValueError:
+            pass               # (a shrunk bound that this notation cannot print: plain configuration instead)
+    d['spec'] = 'out = ' + sg.to_text(sc['ast'], sp, common.dense_bounds if dense else None) + ';'
+    return d
 
 
 def run(sc):
@@ -175,6 +195,8 @@ def run(sc):
         if not common.ref_defined([sc['ast']], dense, again if dense else again['data'], None if dense else again['n']):
             again = None
     desc = desc_of(sc)
+    stamps = units.stamps(sc['notation'], max(sc.get('n', 0), (sc.get('again') or {}).get('n', 0) if not dense else 0)) \
+        if (not dense and sc.get('notation') and ('sampling' in desc or 'unit' in desc)) else None
     stage = 'construct'
     value = None
     try:
@@ -228,7 +250,7 @@ def run(sc):
                     inp = [(v, data[v][i]) for v in sc['order']]
                     if sc.get('extra_supplied'):
                         inp.append(('zz', 1.0))
-                    value.append(M.dt_update(spec, i, inp))
+                    value.append(M.dt_update(spec, stamps[i] if stamps else i, inp))
                     r.api_calls += 1
                 if sc.get('do_reset'):
                     M.api('reset', spec.reset)
@@ -236,13 +258,13 @@ def run(sc):
                 d = dict(data)
                 if sc.get('extra_supplied'):
                     d['zz'] = [1.0] * n
-                value = M.dt_evaluate(spec, list(range(n)), d, sc['order'] + (['zz'] if sc.get('extra_supplied') else []))
+                value = M.dt_evaluate(spec, stamps[:n] if stamps else list(range(n)), d, sc['order'] + (['zz'] if sc.get('extra_supplied') else []))
                 if again:
                     stage = 'evaluate-again'
                     d2 = dict(again['data'])
                     if sc.get('extra_supplied'):
                         d2['zz'] = [1.0] * again['n']
-                    v2 = M.dt_evaluate(spec, list(range(again['n'])), d2, sc['order'] + (['zz'] if sc.get('extra_supplied') else []))
+                    v2 = M.dt_evaluate(spec, stamps[:again['n']] if stamps else list(range(again['n'])), d2, sc['order'] + (['zz'] if sc.get('extra_supplied') else []))
                     if not isinstance(v2, list) or len(v2) != again['n']:
                         r.violate('supported-use-wrong-shape', kind=sc['cls'], spec=desc['spec'], first_n=n, n=again['n'], got=v2)
                     value = [value, v2]
